@@ -119,7 +119,7 @@ func solverCmd() []string {
 	if s := os.Getenv("VERIF_SOLVER"); s != "" {
 		return strings.Fields(s)
 	}
-	return []string{"z3", "-in"}
+	return []string{"z3-new", "-in"}
 }
 
 // RunProperty runs all jobs of a property and returns the process exit code.
@@ -227,6 +227,12 @@ func runOneJob(l *sym.Loaded, job *Job, timeoutMs int, nValid int, seed int64) (
 	st := sym.NewStore()
 	sol := sym.NewSolver(st, solverCmd(), timeoutMs)
 	defer sol.Close()
+	if d := os.Getenv("VERIF_SMTLOG_DIR"); d != "" {
+		if f, err := os.Create(filepath.Join(d, sanitize(job.name())+".smt2")); err == nil {
+			sol.Log = f
+			defer f.Close()
+		}
+	}
 	it := sym.NewInterp(l.Prog, st, sol)
 	if err := it.InitPackages(initPkgs); err != nil {
 		res.err = "init: " + err.Error()
